@@ -348,3 +348,28 @@ def escape_agree(ck, F, rule="ESCAPE-AGREE"):
           "the xlsx writer recognises an `_xHHHH_` look-alike with %s but the reader decodes escapes with %s: text matching only the "
           "reader's class is written verbatim and comes back decoded" % (sorted(w), sorted(r)),
           F.heads[wr[0]]["file"] if wr else "", F.heads[wr[0]]["line"] if wr else 0, sample={"writer": sorted(w), "reader": sorted(r)})
+
+
+def part_names_positional(ck, F, rule="COVER-xlsx"):
+    """Package part names are positional: every number that save_xlsx_to_writer formats into a path
+    (xl/worksheets/sheetN.xml, its _rels file, ...) is the 1-based position of the sheet in the workbook -- the reader
+    derives the rels path from the worksheet path, and [Content_Types] / workbook.xml.rels use the position too.  No
+    formatted value comes from Worksheet.sheet_id (which stops matching the position after a delete or a move)."""
+    from rules_attr import sources
+    b = ck.need(F.one, "export::save_xlsx_to_writer")
+    n = 0
+    for bi, t in b.calls():
+        q = b.callee_q(t) or ""
+        if not q.endswith("new_display") or not t["args"]:
+            continue
+        sr = sources(b, t["args"][0])
+        ids = [x for x in sr if x[0] == "field" and x[2] == "sheet_id"]
+        positional = any(x[0] == "call" and x[1].endswith("Iterator::enumerate") for x in sr) or any(x[0] == "call" and "Enumerate" in x[1] for x in sr)
+        if not ids and not positional:
+            continue
+        n += 1
+        f, l = b.loc(bi)
+        ck.ob(rule, "save_xlsx_to_writer|formatted part number #%d is positional" % n, not ids,
+              "save_xlsx_to_writer names a package part after Worksheet.sheet_id: after a sheet was deleted or moved the relationship "
+              "file no longer sits next to its worksheet and the importer loses (or swaps) the sheet's external hyperlinks", f, l)
+    ck.ob(rule, "save_xlsx_to_writer|part numbers", n >= 2, "expected at least two positional part names in save_xlsx_to_writer, found %d" % n, b.file, b.line)
